@@ -63,6 +63,14 @@ func Render(c Case, perm int64) (map[string]string, error) {
 				{Name: "fk_m_ledger", Cols: []string{"ledger_id"}, RefTable: "ledgers", RefCols: []string{"id"}}}},
 		gm.Table{Name: "alpha", Cols: []gm.Col{{Name: "id", Type: it}, {Name: "zeta_id", Type: it, Null: true}}, PK: []gm.Part{{Col: "id"}},
 			FKs: []gm.FK{{Name: "fk_alpha_zeta", Cols: []string{"zeta_id"}, RefTable: "zeta", RefCols: []string{"id"}}}})
+	if c.Dialect == "postgres" {
+		// several tables use one enum: dropping everything orders the enum after each of them
+		for _, tn := range []string{"ledgers", "zeta", "alpha"} {
+			if tb := base.Table(tn); tb != nil {
+				tb.Cols = append(tb.Cols, gm.Col{Name: "kind_of", Type: "enum:mood", Null: true})
+			}
+		}
+	}
 	edited := base.Clone()
 	for _, e := range c.Edits {
 		if _, err := c02.Apply(c.Dialect, &edited, e); err != nil {
